@@ -11,6 +11,9 @@ inductive SideArg
   | badType                                          -- anything else
   | reuse (base : String) (w : Written) (npts : Nat) (sameFile : Bool)
       -- existing well-formed ancillary pair `<base>Indices/Values` covering `npts` points
+  | reuseBad (base : String) (sameFile : Bool)
+      -- an existing pair that `validate_anc_h5_dsets` refuses whatever the data: Indices and Values of different
+      -- shapes (e.g. another number of dimensions), or not two HDF5 datasets
 deriving Repr
 
 inductive DataArg
@@ -64,6 +67,7 @@ def npointsOf (l : List Dim) : Nat := (l.map (fun d => d.values.length)).prod
 def validateSide (g : Group) (a : SideArg) (pfx : String) (want : Nat) : Except PyErr Unit :=
   match a with
   | .reuse _ _ npts _ => if npts != want then .error .valueErr else .ok ()
+  | .reuseBad _ _ => .error .valueErr
   | .badType =>
     if g.members.contains (pfx ++ "Indices") || g.members.contains (pfx ++ "Values") then .error .keyErr
     else .error .typeErr
@@ -87,12 +91,13 @@ def createSide (g : Group) (a : SideArg) (pfx : String) (s2f : Bool) : Group × 
     ({ g with members := g.members ++ [pfx ++ "Indices", pfx ++ "Values"],
               ancs := g.ancs ++ [⟨pfx, writeIndVal l s2f, npointsOf l⟩] }, pfx)
   | .badType => (g, pfx)
+  | .reuseBad _ _ => (g, pfx)
 
 /-- names of the datasets this call is going to create -/
 def newNames (a : Args) : List String :=
   [a.name] ++
-  (match a.pos with | .reuse _ _ _ _ => [] | _ => [a.posPrefix ++ "Indices", a.posPrefix ++ "Values"]) ++
-  (match a.spec with | .reuse _ _ _ _ => [] | _ => [a.specPrefix ++ "Indices", a.specPrefix ++ "Values"])
+  (match a.pos with | .reuse _ _ _ _ => [] | .reuseBad _ _ => [] | _ => [a.posPrefix ++ "Indices", a.posPrefix ++ "Values"]) ++
+  (match a.spec with | .reuse _ _ _ _ => [] | .reuseBad _ _ => [] | _ => [a.specPrefix ++ "Indices", a.specPrefix ++ "Values"])
 
 /-- every check `write_main_dataset` performs, in order; nothing is created here -/
 def validateAll (g : Group) (a : Args) : Except PyErr Unit := do
